@@ -169,11 +169,21 @@ impl Dn {
 		}
 		Dn(out)
 	}
+	/// the name *asked for*: the pushes settled by `push`'s documented rule, each value in the form
+	/// its type reports — kept apart from the real container (what that enumerates after the same
+	/// edits is C20's business and is held against the same rule there; a container that loses,
+	/// doubles or reorders attributes then shows in every artefact that carries a name)
 	pub fn sexp(&self) -> String {
-		match self.real() {
-			Some(dn) => Dn::sexp_of_real(&dn),
-			None => "(dn)".into(),
+		if self.real().is_none() {
+			return "(dn)".into();
 		}
+		let items: Vec<String> = self
+			.settled()
+			.0
+			.iter()
+			.map(|(t, v)| list(&[t.sexp(), v.real().map(|r| DnV::of_real(&r)).unwrap_or_else(|| v.clone()).sexp()]))
+			.collect();
+		tagged("dn", &items)
 	}
 }
 
